@@ -278,36 +278,39 @@ Qed.
 Record sinv (s : store) : Prop := mkSinv {
   si_wf : wf_store s = true;
   si_ids : desc (st_genlog s) (st_next_id s);
-  si_sx : Forall (fun x => In (s_xid x) (st_genlog s)) (st_sheap s);
-  si_nums : st_next_sofa s = Z.of_nat (List.length (st_sheap s)) + 1 /\
-            forall a x, nth_error (st_sheap s) a = Some x -> s_num x = Z.of_nat a + 1;
+  si_sx : Forall (fun x => s_xid x < st_next_id s) (st_sheap s);      (* no sofa id will ever be generated *)
+  si_nums : Forall (fun x => s_num x < st_next_sofa s) (st_sheap s);
   si_refs : forall o fs a, hget o (st_heap s) = Some fs -> f_sofa fs = Some a -> (a < List.length (st_sheap s))%nat;
   si_conv : Forall (fun x => forall t, s_text x = Some t -> s_conv x = Some t) (st_sheap s) }.
 
 Lemma sinv_empty heap : heap0_okb heap = true -> sinv (empty_store heap).
 Proof.
   intros H. constructor; cbn; auto.
-  - split; [reflexivity|]. intros [|a] x E; discriminate.
   - intros o fs a Hg Hs. rewrite (heap0_ok _ _ _ H Hg) in Hs. discriminate.
 Qed.
 
-Lemma sinv_add_view n s : sinv s -> memb n (akeys (st_views s)) = false -> sinv (add_view n s).
+Lemma view_id_bounds xid s : st_next_id s <= view_next_id xid s /\ view_xid xid s < view_next_id xid s.
+Proof. unfold view_next_id, view_xid. destruct xid as [k|]; [destruct (k >=? st_next_id s) eqn:E|]; lia. Qed.
+
+Lemma view_num_bounds num s : st_next_sofa s <= view_next_sofa num s /\ view_num num s < view_next_sofa num s.
+Proof. unfold view_next_sofa, view_num. destruct num as [k|]; [destruct (k >=? st_next_sofa s) eqn:E|]; lia. Qed.
+
+Lemma sinv_add_view n xid num s : sinv s -> memb n (akeys (st_views s)) = false -> sinv (add_view n xid num s).
 Proof.
-  intros [Hwf Hids Hsx [Hn1 Hn2] Hrefs Hconv] Hnew. unfold add_view. constructor; cbn [st_views st_sofas st_sheap st_next_id st_next_sofa st_heap st_genlog].
+  intros [Hwf Hids Hsx Hn Hrefs Hconv] Hnew. unfold add_view. constructor; cbn [st_views st_sofas st_sheap st_next_id st_next_sofa st_heap st_genlog].
   - unfold wf_store in *. cbn [st_views st_sofas st_sheap]. apply andb_true_iff in Hwf. destruct Hwf as [W N].
     apply andb_true_iff. split.
     + apply (wf_from_app 0 _ _ _ n); [reflexivity|exact W].
     + unfold akeys in *. rewrite map_app. cbn [map fst]. apply nodupb_app_new; assumption.
-  - cbn [desc]. split; [lia|exact Hids].
-  - apply Forall_app. split.
-    + apply Forall_impl with (2 := Hsx). intros x Hx. right. exact Hx.
-    + constructor; [left; reflexivity|constructor].
-  - rewrite app_length. cbn [List.length]. split; [lia|].
-    intros a x E. destruct (Nat.lt_ge_cases a (List.length (st_sheap s))) as [L|L].
-    + rewrite nth_error_app1 in E by exact L. apply Hn2. exact E.
-    + rewrite nth_error_app2 in E by exact L. destruct (a - List.length (st_sheap s))%nat as [|k] eqn:K; cbn [nth_error] in E.
-      * injection E as <-. cbn [s_num]. lia.
-      * destruct k; discriminate.
+  - unfold view_genlog, view_next_id. destruct xid as [k|].
+    + destruct (k >=? st_next_id s) eqn:E; [|exact Hids]. cbn [desc]. split; [lia|]. apply desc_weaken with (1 := Hids). lia.
+    + cbn [desc]. split; [lia|exact Hids].
+  - destruct (view_id_bounds xid s) as [B1 B2]. apply Forall_app. split.
+    + apply Forall_impl with (2 := Hsx). intros x Hx. lia.
+    + constructor; [cbn [s_xid]; exact B2|constructor].
+  - destruct (view_num_bounds num s) as [B1 B2]. apply Forall_app. split.
+    + apply Forall_impl with (2 := Hn). intros x Hx. lia.
+    + constructor; [cbn [s_num]; exact B2|constructor].
   - intros o fs a Hg Hs. rewrite app_length. specialize (Hrefs _ _ _ Hg Hs). lia.
   - apply Forall_app. split; [exact Hconv|]. constructor; [|constructor]. cbn. intros t E. discriminate.
 Qed.
@@ -318,21 +321,16 @@ Lemma sinv_upd_sofa s a f :
              ((forall t, s_text x = Some t -> s_conv x = Some t) -> forall t, s_text (f x) = Some t -> s_conv (f x) = Some t)) ->
   sinv (upd_sofa s a f).
 Proof.
-  intros [Hwf Hids Hsx [Hn1 Hn2] Hrefs Hconv] Hf. unfold upd_sofa, with_sheap.
+  intros [Hwf Hids Hsx Hn Hrefs Hconv] Hf. unfold upd_sofa, with_sheap.
   constructor; cbn [st_views st_sofas st_sheap st_next_id st_next_sofa st_heap st_genlog]; auto.
   - unfold wf_store in *. cbn [st_views st_sofas st_sheap]. apply andb_true_iff in Hwf. destruct Hwf as [W N].
     rewrite N, andb_true_r. apply wf_from_upd; [intros x; apply Hf|exact W].
   - clear - Hsx Hf. revert a. induction (st_sheap s) as [|x r IH]; intros a; [destruct a; constructor|].
     inversion Hsx; subst. destruct a; cbn [upd_nth]; constructor; auto.
     destruct (Hf x) as (_ & -> & _). assumption.
-  - rewrite upd_nth_length. split; [exact Hn1|]. intros b x E.
-    destruct (Nat.eq_dec a b) as [->|Hne].
-    + destruct (nth_error (st_sheap s) b) as [y|] eqn:Ey.
-      * rewrite (nth_upd_same _ _ _ _ Ey) in E. injection E as <-. destruct (Hf y) as (_ & _ & -> & _). apply Hn2. exact Ey.
-      * assert (L : (List.length (st_sheap s) <= b)%nat) by (apply nth_error_None; exact Ey).
-        assert (E' : nth_error (upd_nth b f (st_sheap s)) b = None) by (apply nth_error_None; rewrite upd_nth_length; exact L).
-        rewrite E' in E. discriminate.
-    + rewrite nth_upd_other in E by exact Hne. apply Hn2. exact E.
+  - clear - Hn Hf. revert a. induction (st_sheap s) as [|x r IH]; intros a; [destruct a; constructor|].
+    inversion Hn; subst. destruct a; cbn [upd_nth]; constructor; auto.
+    destruct (Hf x) as (_ & _ & -> & _). assumption.
   - intros o fs b Hg Hs. rewrite upd_nth_length. eapply Hrefs; eassumption.
   - clear - Hconv Hf. revert a. induction (st_sheap s) as [|x r IH]; intros a; [destruct a; constructor|].
     inversion Hconv; subst. destruct a; cbn [upd_nth]; constructor; auto.
@@ -398,7 +396,7 @@ Qed.
 
 Lemma sinv_add_fs ts s h o keep s' : sinv s -> add_fs ts s h o keep = Ok s' -> sinv s'.
 Proof.
-  intros [Hwf Hids Hsx [Hn1 Hn2] Hrefs Hconv] H.
+  intros [Hwf Hids Hsx Hn Hrefs Hconv] H.
   destruct (add_fs_inv _ _ _ _ _ _ H) as (fs & v & id & Hg & Hv & _ & Ev & Eso & Esh & Ens & _ & Eh & Eid).
   constructor.
   - apply (wf_store_amap s s' (h_view h) (fun v => mkView (v_sofa v) (v_index v ++ [o]))); auto.
@@ -406,8 +404,8 @@ Proof.
     + destruct (id >=? st_next_id s) eqn:E; [apply desc_weaken with (1 := Hids); lia|exact Hids].
     + cbn [desc]. split; [lia|exact Hids].
   - rewrite Esh. apply Forall_impl with (2 := Hsx). intros x Hx.
-    destruct Eid as [(_ & _ & -> & _)|(_ & _ & -> & _)]; [exact Hx|right; exact Hx].
-  - rewrite Esh, Ens. split; assumption.
+    destruct Eid as [(_ & _ & _ & ->)|(_ & -> & _ & ->)]; [destruct (id >=? st_next_id s) eqn:E; lia|lia].
+  - rewrite Esh, Ens. exact Hn.
   - rewrite Esh, Eh. intros o' fs' a Hg' Hs'.
     destruct (N.eq_dec o' o) as [->|Hne].
     + rewrite hget_hput_same in Hg'. injection Hg' as <-. unfold added_fs in Hs'. cbn [f_sofa] in Hs'.
@@ -660,9 +658,9 @@ Proof.
 Qed.
 
 (* a new handle is what _copy makes: the named view, the leniency of the handle it was obtained from *)
-Theorem new_handle_copies ts s h hd name s' n :
+Theorem new_handle_copies ts s h hd name xid num s' n :
   nth_error (hs s) h = Some hd ->
-  (step ts s (OCreateView h name) = (s', ObHandle n) \/ step ts s (OGetView h name) = (s', ObHandle n)) ->
+  (step ts s (OCreateView h name xid num) = (s', ObHandle n) \/ step ts s (OGetView h name) = (s', ObHandle n)) ->
   n = List.length (hs s) /\ hs s' = hs s ++ [mkHandle name (h_lenient hd)].
 Proof.
   intros Hh. unfold step. cbn [op_handle]. rewrite Hh. cbn [step_h].
@@ -673,14 +671,6 @@ Qed.
 Theorem one_sofa_per_view ts l heap s :
   heap0_okb heap = true -> reachable ts l heap s -> wf_store (st s) = true.
 Proof. intros H0 Hr. destruct (reachable_inv _ _ _ _ H0 Hr) as [[H _ _ _ _ _] _]. exact H. Qed.
-
-Theorem sofa_nums_distinct ts l heap s a b x y :
-  heap0_okb heap = true -> reachable ts l heap s ->
-  nth_error (st_sheap (st s)) a = Some x -> nth_error (st_sheap (st s)) b = Some y -> s_num x = s_num y -> a = b.
-Proof.
-  intros H0 Hr Ha Hb E. destruct (reachable_inv _ _ _ _ H0 Hr) as [[_ _ _ [_ Hn] _ _] _].
-  rewrite (Hn _ _ Ha), (Hn _ _ Hb) in E. lia.
-Qed.
 
 (* the offset converter of every sofa that has a text was built from that text *)
 Theorem conv_in_sync ts l heap s a x t :
@@ -973,15 +963,100 @@ Qed.
 
 (* ================================================================ one id space *)
 
+(* what one step does to the generator and its log: whatever it logs is at or above the generator's value before
+   the step, and the generator never goes back *)
+Lemma set_lang_genlog s d v :
+  st_genlog (set_lang s d v) = st_genlog s /\ st_next_id (set_lang s d v) = st_next_id s /\
+  st_next_sofa (set_lang s d v) = st_next_sofa s.
+Proof. unfold set_lang. destruct (hget d (st_heap s)); repeat split; reflexivity. Qed.
+
+Definition log_grows (s s' : store) : Prop :=
+  exists extra, st_genlog s' = extra ++ st_genlog s /\ Forall (fun i => st_next_id s <= i) extra /\
+                st_next_id s <= st_next_id s'.
+
+Lemma log_grows_refl s : log_grows s s.
+Proof. exists []. split; [reflexivity|]. split; [constructor|lia]. Qed.
+
+Lemma log_grows_trans a b c : log_grows a b -> log_grows b c -> log_grows a c.
+Proof.
+  intros (e1 & E1 & F1 & L1) (e2 & E2 & F2 & L2). exists (e2 ++ e1). split; [rewrite E2, E1, app_assoc; reflexivity|].
+  split; [|lia]. apply Forall_app. split; [|exact F1]. apply Forall_impl with (2 := F2). intros i Hi. lia.
+Qed.
+
+Lemma add_fs_log ts s h o keep s' : add_fs ts s h o keep = Ok s' -> log_grows s s'.
+Proof.
+  intros H. destruct (add_fs_inv _ _ _ _ _ _ H) as (fs & v & id & _ & _ & _ & _ & _ & _ & _ & _ & _ & Eid).
+  destruct Eid as [(_ & _ & Eg & En)|(_ & -> & Eg & En)].
+  - exists []. split; [exact Eg|]. split; [constructor|]. rewrite En. destruct (id >=? st_next_id s) eqn:E; lia.
+  - exists [st_next_id s]. split; [exact Eg|]. split; [constructor; [lia|constructor]|lia].
+Qed.
+
+Lemma get_docann_log ts s h d s' : get_docann ts s h = Ok (d, s') -> log_grows s s'.
+Proof.
+  intros H. destruct (get_docann_inv _ _ _ _ _ H) as [[_ ->]|(_ & _ & Ha)]; [apply log_grows_refl|].
+  apply add_fs_log in Ha. exact Ha.
+Qed.
+
+Lemma add_view_log name xid num s : log_grows s (add_view name xid num s).
+Proof.
+  unfold log_grows, add_view. cbn [st_genlog st_next_id]. destruct (view_id_bounds xid s) as [B _].
+  unfold view_genlog. destruct xid as [k|]; [destruct (k >=? st_next_id s) eqn:E|].
+  - exists [k]. split; [reflexivity|]. split; [constructor; [lia|constructor]|exact B].
+  - exists []. split; [reflexivity|]. split; [constructor|exact B].
+  - exists [st_next_id s]. split; [reflexivity|]. split; [constructor; [lia|constructor]|exact B].
+Qed.
+
+Lemma step_log ts s o : log_grows (st s) (st (fst (step ts s o))).
+Proof.
+  pose proof (log_grows_refl (st s)) as Same.
+  unfold step. destruct (op_handle o) as [h|] eqn:Eo; [|destruct o; try discriminate; exact Same].
+  destruct (nth_error (hs s) h) as [hd|]; [|exact Same].
+  destruct o; cbn [step_h]; try rewrite sofa_read_state; try exact Same.
+  - destruct (memb name (akeys (st_views (st s)))); [exact Same|]. cbn [fst st]. apply add_view_log.
+  - destruct (memb name (akeys (st_views (st s)))); exact Same.
+  - destruct (add_fs ts (st s) hd o keep) as [s'|e|] eqn:E; [|destruct e; exact Same|exact Same]. cbn [fst st].
+    eapply add_fs_log; eassumption.
+  - destruct (remove_fs (st s) hd o) as [s'|e|] eqn:E; [|destruct e; exact Same|exact Same]. cbn [fst st].
+    destruct (remove_fs_inv _ _ _ _ E) as (v & idx & _ & _ & ->). exact Same.
+  - unfold sofa_write. destruct (cur_sofa (st s) hd); exact Same.
+  - unfold sofa_write. destruct (cur_sofa (st s) hd); exact Same.
+  - unfold sofa_write. destruct (cur_sofa (st s) hd); exact Same.
+  - unfold sofa_write. destruct (cur_sofa (st s) hd); exact Same.
+  - destruct (alookup (h_view hd) (st_views (st s))); exact Same.
+  - destruct (get_docann ts (st s) hd) as [[d s']|e|] eqn:E; [|destruct e; exact Same|exact Same]. cbn [fst st].
+    eapply get_docann_log; eassumption.
+  - destruct (get_docann ts (st s) hd) as [[d s']|e|] eqn:E; [|destruct e; exact Same|exact Same]. cbn [fst st].
+    apply get_docann_log in E. destruct E as (e & E1 & E2 & E3). destruct (set_lang_genlog s' d v) as (G1 & G2 & _).
+    exists e. rewrite G1, G2. auto.
+Qed.
+
+Lemma run_log ts ops : forall s, log_grows (st s) (st (fst (run ts s ops))).
+Proof.
+  induction ops as [|o r IH]; intros s; [apply log_grows_refl|].
+  cbn [run]. pose proof (step_log ts s o) as H1. destruct (step ts s o) as [s1 ob]. cbn [fst] in H1.
+  specialize (IH s1). destruct (run ts s1 r) as [s2 obs]. cbn [fst] in *. eapply log_grows_trans; eassumption.
+Qed.
+
 (* all ids handed out by the xmi id generator, through whatever handle, for sofas and feature structures
-   alike, are pairwise distinct and below the generator's next value; every sofa's id is one of them *)
+   alike, are pairwise distinct and below the generator's next value; so is every sofa's id — also one that
+   create_view was GIVEN (xmiID=k): the generator is moved past it, whatever handle the view was created through *)
 Theorem shared_ids ts l heap s :
   heap0_okb heap = true -> reachable ts l heap s ->
   NoDup (st_genlog (st s)) /\ Forall (fun i => i < st_next_id (st s)) (st_genlog (st s)) /\
-  Forall (fun x => In (s_xid x) (st_genlog (st s))) (st_sheap (st s)).
+  Forall (fun x => s_xid x < st_next_id (st s)) (st_sheap (st s)).
 Proof.
   intros H0 Hr. destruct (reachable_inv _ _ _ _ H0 Hr) as [[_ Hd Hsx _ _ _] _].
   split; [eapply desc_NoDup; exact Hd|]. split; [apply desc_below; exact Hd|exact Hsx].
+Qed.
+
+(* hence over ANY later history no id the generator hands out (or accepts as a free explicit sofa id) equals the
+   id of a sofa that exists now *)
+Theorem sofa_id_never_generated ts l s ops x :
+  inv l s -> In x (st_sheap (st s)) ->
+  exists extra, st_genlog (st (fst (run ts s ops))) = extra ++ st_genlog (st s) /\ ~ In (s_xid x) extra.
+Proof.
+  intros [[_ _ Hsx _ _ _] _] Hx. destruct (run_log ts ops s) as (extra & E & F & _). exists extra. split; [exact E|].
+  intros C. rewrite Forall_forall in Hsx, F. specialize (Hsx _ Hx). specialize (F _ C). cbv beta in *. lia.
 Qed.
 
 (* an add that generates an id takes the generator's next value, which no sofa or structure was given before *)
@@ -1001,27 +1076,207 @@ Proof.
   - eexists. rewrite Eh, hget_hput_same. split; reflexivity.
 Qed.
 
-(* a new view's sofa takes the next id of the same generator and the next sofa number *)
-Theorem create_view_fresh ts l s h name s' n :
-  inv l s -> step ts s (OCreateView h name) = (s', ObHandle n) ->
-  exists x, view_sofa (st s') name = Some x /\ s_xid x = st_next_id (st s) /\ s_num x = st_next_sofa (st s) /\
-            s_name x = name /\ s_text x = None /\
-            (forall y, In y (st_sheap (st s)) -> s_xid y <> s_xid x /\ s_num y <> s_num x).
+(* ... and it is the id of no sofa, however that sofa got its id (generated, or given to create_view) — for every
+   add that generates: keep_id off, or on for a structure that has no id yet *)
+Theorem generated_id_no_sofa ts l s h o keep s' fs :
+  inv l s -> step ts s (OAdd h o keep) = (s', ObUnit) -> hget o (st_heap (st s)) = Some fs ->
+  keep = false \/ f_xid fs = None ->
+  (exists fs', hget o (st_heap (st s')) = Some fs' /\ f_xid fs' = Some (st_next_id (st s))) /\
+  Forall (fun x => s_xid x <> st_next_id (st s)) (st_sheap (st s')).
 Proof.
-  intros [[Hwf Hd Hsx [Hn1 Hn2] _ _] _]. unfold step. cbn [op_handle]. destruct (nth_error (hs s) h) as [hd|]; [|discriminate].
+  intros [[_ _ Hsx _ _ _] _]. unfold step. cbn [op_handle]. destruct (nth_error (hs s) h) as [hd|]; [|discriminate].
+  cbn [step_h]. destruct (add_fs ts (st s) hd o keep) as [s1|e|] eqn:E; [|destruct e; discriminate|discriminate].
+  intros E' Hg Hk. injection E' as <-. cbn [st].
+  destruct (add_fs_inv _ _ _ _ _ _ E) as (fs0 & v & id & Hg0 & _ & _ & _ & _ & Esh & _ & _ & Eh & Eid).
+  rewrite Hg in Hg0. injection Hg0 as <-. split.
+  - eexists. rewrite Eh, hget_hput_same. split; [reflexivity|]. cbn [added_fs f_xid].
+    destruct Eid as [(K1 & K2 & _)|(_ & -> & _)]; [|reflexivity].
+    destruct Hk as [Hk|Hk]; [rewrite Hk in K1; discriminate|rewrite Hk in K2; discriminate].
+  - rewrite Esh. apply Forall_impl with (2 := Hsx). intros x Hx. lia.
+Qed.
+
+(* a new view's sofa: the id and number create_view was given, else the next ones of the two shared generators; both
+   generators end up past them, and the sofa starts empty under the view's name *)
+Theorem create_view_explicit ts l s h name xid num s' n :
+  inv l s -> step ts s (OCreateView h name xid num) = (s', ObHandle n) ->
+  exists x, view_sofa (st s') name = Some x /\
+            s_xid x = (match xid with Some k => k | None => st_next_id (st s) end) /\
+            s_num x = (match num with Some k => k | None => st_next_sofa (st s) end) /\
+            s_name x = name /\ s_text x = None /\
+            s_xid x < st_next_id (st s') /\ s_num x < st_next_sofa (st s') /\
+            st_next_id (st s) <= st_next_id (st s') /\ st_next_sofa (st s) <= st_next_sofa (st s') /\
+            st_sheap (st s') = st_sheap (st s) ++ [x].
+Proof.
+  intros [[Hwf _ _ _ _ _] _]. unfold step. cbn [op_handle]. destruct (nth_error (hs s) h) as [hd|]; [|discriminate].
   cbn [step_h]. destruct (memb name (akeys (st_views (st s)))) eqn:M; [discriminate|].
-  intros E. injection E as <- _. cbn [st]. unfold view_sofa, add_view. cbn [st_views st_sheap].
+  intros E. injection E as <- _. cbn [st]. unfold view_sofa, add_view. cbn [st_views st_sheap st_next_id st_next_sofa].
   rewrite alookup_app_new.
   assert (L : alookup name (st_views (st s)) = None).
   { destruct (alookup name (st_views (st s))) eqn:L; [|reflexivity].
     assert (C : memb name (akeys (st_views (st s))) = true) by (apply alookup_memb; eauto). rewrite C in M. discriminate. }
   rewrite L, String.eqb_refl. cbn [v_sofa]. rewrite nth_error_app2, Nat.sub_diag by lia. cbn [nth_error].
-  eexists. split; [reflexivity|]. cbn [s_xid s_num s_name s_text]. repeat (split; [reflexivity|]).
-  intros y Hy. split.
-  - rewrite Forall_forall in Hsx. pose proof (desc_below _ _ Hd) as F. rewrite Forall_forall in F.
-    specialize (F _ (Hsx y Hy)). lia.
-  - apply In_nth_error in Hy. destruct Hy as [a Ha]. rewrite (Hn2 _ _ Ha), Hn1.
-    assert (a < List.length (st_sheap (st s)))%nat by (apply nth_error_Some; rewrite Ha; discriminate). lia.
+  destruct (view_id_bounds xid (st s)) as [B1 B2]. destruct (view_num_bounds num (st s)) as [B3 B4].
+  eexists. split; [reflexivity|]. cbn [s_xid s_num s_name s_text]. repeat (split; [first [reflexivity|assumption]|]). reflexivity.
+Qed.
+
+(* without explicit numbers: the next id of the shared generator and the next sofa number, held by no other sofa *)
+Theorem create_view_fresh ts l s h name s' n :
+  inv l s -> step ts s (OCreateView h name None None) = (s', ObHandle n) ->
+  exists x, view_sofa (st s') name = Some x /\ s_xid x = st_next_id (st s) /\ s_num x = st_next_sofa (st s) /\
+            s_name x = name /\ s_text x = None /\
+            (forall y, In y (st_sheap (st s)) -> s_xid y <> s_xid x /\ s_num y <> s_num x).
+Proof.
+  intros Hi H. destruct (create_view_explicit _ _ _ _ _ _ _ _ _ Hi H) as (x & H1 & H2 & H3 & H4 & H5 & _).
+  exists x. repeat (split; [assumption|]). destruct Hi as [[_ _ Hsx Hn _ _] _]. rewrite Forall_forall in Hsx, Hn.
+  intros y Hy. specialize (Hsx _ Hy). specialize (Hn _ Hy). cbv beta in *. lia.
+Qed.
+
+(* ---------------------------------------------------------------- histories whose explicit numbers are free *)
+
+(* create_view(name, xmiID=k, sofaNum=m) is legal for any integers; a caller who passes a number that is already
+   below the generator's next value may repeat one in use.  A history is `fresh` when every explicit number was at or
+   above the generator's next value when it was passed (in particular every history without explicit numbers). *)
+Definition fresh_op (s : state) (o : op) : bool :=
+  match o with
+  | OCreateView _ _ xid num =>
+      match xid with Some k => k >=? st_next_id (st s) | None => true end &&
+      match num with Some k => k >=? st_next_sofa (st s) | None => true end
+  | _ => true
+  end.
+Fixpoint fresh_run (ts : tsinfo) (s : state) (ops : list op) : bool :=
+  match ops with [] => true | o :: r => fresh_op s o && fresh_run ts (fst (step ts s o)) r end.
+Definition reachable_fresh (ts : tsinfo) (l : bool) (heap : list (oid * fsobj)) (s : state) : Prop :=
+  exists ops, fresh_run ts (init0 l heap) ops = true /\ s = fst (run ts (init0 l heap) ops).
+
+Definition no_explicit (o : op) : bool :=
+  match o with OCreateView _ _ None None => true | OCreateView _ _ _ _ => false | _ => true end.
+
+Lemma no_explicit_fresh ts ops : forall s, forallb no_explicit ops = true -> fresh_run ts s ops = true.
+Proof.
+  induction ops as [|o r IH]; intros s H; [reflexivity|]. cbn [forallb] in H. apply andb_true_iff in H. destruct H as [H1 H2].
+  cbn [fresh_run]. rewrite (IH _ H2), andb_true_r. destruct o; try reflexivity. destruct xid, num; try discriminate. reflexivity.
+Qed.
+
+Lemma reachable_fresh_reachable ts l heap s : reachable_fresh ts l heap s -> reachable ts l heap s.
+Proof. intros (ops & _ & E). exists ops. exact E. Qed.
+
+(* every sofa id is in the log (generated, or accepted while free); sofa numbers are pairwise distinct *)
+Definition pinv (s : store) : Prop :=
+  Forall (fun x => In (s_xid x) (st_genlog s)) (st_sheap s) /\ NoDup (map s_num (st_sheap s)).
+
+Lemma map_upd_nth {A B} (g : A -> B) (f : A -> A) n l : (forall x, g (f x) = g x) -> map g (upd_nth n f l) = map g l.
+Proof.
+  intros Hf. revert n. induction l as [|x r IH]; intros [|n]; cbn [upd_nth map]; try reflexivity.
+  - rewrite Hf. reflexivity.
+  - rewrite IH. reflexivity.
+Qed.
+
+Lemma NoDup_app_new {A} (l : list A) n : NoDup l -> ~ In n l -> NoDup (l ++ [n]).
+Proof.
+  induction l as [|x r IH]; cbn [app]; intros Hnd Hni.
+  - constructor; [intros []|constructor].
+  - inversion Hnd as [|? ? Hx Hr]; subst. constructor.
+    + rewrite in_app_iff. intros [C|[C|[]]]; [contradiction|]. subst. apply Hni. left. reflexivity.
+    + apply IH; [exact Hr|]. intros C. apply Hni. right. exact C.
+Qed.
+
+(* a step that is not a successful create_view leaves the ids and numbers of all sofas alone *)
+Lemma step_sofa_frame ts s o :
+  (forall h name xid num, o <> OCreateView h name xid num) ->
+  map s_xid (st_sheap (st (fst (step ts s o)))) = map s_xid (st_sheap (st s)) /\
+  map s_num (st_sheap (st (fst (step ts s o)))) = map s_num (st_sheap (st s)).
+Proof.
+  intros Hno. assert (Same : map s_xid (st_sheap (st s)) = map s_xid (st_sheap (st s)) /\
+                             map s_num (st_sheap (st s)) = map s_num (st_sheap (st s))) by (split; reflexivity).
+  unfold step. destruct (op_handle o) as [h|] eqn:Eo; [|destruct o; try discriminate; exact Same].
+  destruct (nth_error (hs s) h) as [hd|]; [|exact Same].
+  assert (W : forall f, (forall x, s_xid (f x) = s_xid x /\ s_num (f x) = s_num x) ->
+              map s_xid (st_sheap (st (fst (sofa_write s hd f)))) = map s_xid (st_sheap (st s)) /\
+              map s_num (st_sheap (st (fst (sofa_write s hd f)))) = map s_num (st_sheap (st s))).
+  { intros f Hf. unfold sofa_write. destruct (cur_sofa (st s) hd) as [a|]; [|exact Same]. cbn [fst st]. unfold upd_sofa, with_sheap.
+    cbn [st_sheap]. split; apply map_upd_nth; intros x; apply Hf. }
+  destruct o; cbn [step_h]; try rewrite sofa_read_state; try exact Same.
+  - exfalso. eapply Hno. reflexivity.
+  - destruct (memb name (akeys (st_views (st s)))); exact Same.
+  - destruct (add_fs ts (st s) hd o keep) as [s'|e|] eqn:E; [|destruct e; exact Same|exact Same]. cbn [fst st].
+    destruct (add_fs_inv _ _ _ _ _ _ E) as (fs & v & id & _ & _ & _ & _ & _ & -> & _). exact Same.
+  - destruct (remove_fs (st s) hd o) as [s'|e|] eqn:E; [|destruct e; exact Same|exact Same]. cbn [fst st].
+    destruct (remove_fs_inv _ _ _ _ E) as (v & idx & _ & _ & ->). exact Same.
+  - apply W. intros x. split; reflexivity.
+  - apply W. intros x. split; reflexivity.
+  - apply W. intros x. split; reflexivity.
+  - apply W. intros x. split; reflexivity.
+  - destruct (alookup (h_view hd) (st_views (st s))); exact Same.
+  - destruct (get_docann ts (st s) hd) as [[d s']|e|] eqn:E; [|destruct e; exact Same|exact Same]. cbn [fst st].
+    destruct (get_docann_shape _ _ _ _ _ E) as (-> & _). exact Same.
+  - destruct (get_docann ts (st s) hd) as [[d s']|e|] eqn:E; [|destruct e; exact Same|exact Same]. cbn [fst st].
+    destruct (set_lang_views s' d v) as [_ ->]. destruct (get_docann_shape _ _ _ _ _ E) as (-> & _). exact Same.
+Qed.
+
+Lemma Forall_map_iff {A B} (g : A -> B) (P : B -> Prop) l : Forall (fun x => P (g x)) l <-> Forall P (map g l).
+Proof. rewrite !Forall_forall. split; [intros H y Hy; apply in_map_iff in Hy; destruct Hy as (x & <- & Hx); auto|intros H x Hx; apply H, in_map, Hx]. Qed.
+
+Lemma pinv_step ts l s o : inv l s -> pinv (st s) -> fresh_op s o = true -> pinv (st (fst (step ts s o))).
+Proof.
+  intros Hi [P1 P2] Hf.
+  assert (Frame : (forall h name xid num, o <> OCreateView h name xid num) -> pinv (st (fst (step ts s o)))).
+  { intros Hno. destruct (step_sofa_frame ts s o Hno) as [F1 F2]. destruct (step_log ts s o) as (extra & E & _).
+    split; [|rewrite F2; exact P2].
+    apply (Forall_map_iff s_xid (fun i => In i (st_genlog (st (fst (step ts s o)))))). rewrite F1.
+    apply (Forall_map_iff s_xid). apply Forall_impl with (2 := P1). intros x Hx. rewrite E. apply in_or_app. right. exact Hx. }
+  destruct o; try (apply Frame; discriminate).
+  unfold step. cbn [op_handle]. destruct (nth_error (hs s) h) as [hd|]; [|split; assumption].
+  cbn [step_h]. destruct (memb name (akeys (st_views (st s)))); [split; assumption|]. cbn [fst st].
+  cbn [fresh_op] in Hf. apply andb_true_iff in Hf. destruct Hf as [Fx Fn].
+  destruct Hi as [[_ _ _ Hn _ _] _]. unfold add_view. split; cbn [st_sheap st_genlog].
+  - apply Forall_app. split.
+    + apply Forall_impl with (2 := P1). intros x Hx. unfold view_genlog.
+      destruct xid as [k|]; [destruct (k >=? st_next_id (st s))|]; [right|idtac|right]; exact Hx.
+    + constructor; [|constructor]. cbn [s_xid]. unfold view_xid, view_genlog. destruct xid as [k|]; [rewrite Fx|]; left; reflexivity.
+  - rewrite map_app. cbn [map s_num]. apply NoDup_app_new; [exact P2|]. intros C. apply in_map_iff in C. destruct C as (y & Ey & Hy).
+    rewrite Forall_forall in Hn. specialize (Hn _ Hy). cbv beta in Hn. unfold view_num in Ey. destruct num as [k|]; lia.
+Qed.
+
+Lemma pinv_run ts l ops : forall s, inv l s -> pinv (st s) -> fresh_run ts s ops = true -> pinv (st (fst (run ts s ops))).
+Proof.
+  induction ops as [|o r IH]; intros s Hi Hp Hf; [exact Hp|]. cbn [fresh_run] in Hf. apply andb_true_iff in Hf. destruct Hf as [F1 F2].
+  cbn [run]. pose proof (step_inv ts l s o Hi) as Hi1. pose proof (pinv_step ts l s o Hi Hp F1) as Hp1.
+  destruct (step ts s o) as [s1 ob]. cbn [fst] in *. specialize (IH s1 Hi1 Hp1 F2). destruct (run ts s1 r) as [s2 obs]. exact IH.
+Qed.
+
+Theorem reachable_fresh_pinv ts l heap s : heap0_okb heap = true -> reachable_fresh ts l heap s -> pinv (st s).
+Proof.
+  intros H0 (ops & Hf & ->). apply (pinv_run ts l); [apply init0_inv; exact H0| |exact Hf].
+  unfold init0, add_view. cbn. split; [constructor; [left; reflexivity|constructor]|constructor; [intros []|constructor]].
+Qed.
+
+(* when every explicit number was free (e.g. none was passed): every sofa's id is one of the logged ids, which are
+   pairwise distinct — so sofa ids are pairwise distinct and differ from every generated id *)
+Theorem shared_ids_fresh ts l heap s :
+  heap0_okb heap = true -> reachable_fresh ts l heap s ->
+  NoDup (st_genlog (st s)) /\ Forall (fun i => i < st_next_id (st s)) (st_genlog (st s)) /\
+  Forall (fun x => In (s_xid x) (st_genlog (st s))) (st_sheap (st s)).
+Proof.
+  intros H0 Hr. destruct (shared_ids ts l heap s H0 (reachable_fresh_reachable _ _ _ _ Hr)) as (A & B & _).
+  destruct (reachable_fresh_pinv _ _ _ _ H0 Hr) as [P _]. auto.
+Qed.
+
+Theorem sofa_nums_distinct ts l heap s a b x y :
+  heap0_okb heap = true -> reachable_fresh ts l heap s ->
+  nth_error (st_sheap (st s)) a = Some x -> nth_error (st_sheap (st s)) b = Some y -> s_num x = s_num y -> a = b.
+Proof.
+  intros H0 Hr Ha Hb E. destruct (reachable_fresh_pinv _ _ _ _ H0 Hr) as [_ P].
+  rewrite NoDup_nth_error in P. apply P.
+  - rewrite map_length. apply nth_error_Some. rewrite Ha. discriminate.
+  - rewrite !nth_error_map, Ha, Hb. cbn [option_map]. rewrite E. reflexivity.
+Qed.
+
+(* an explicit number below the generator's next value is taken as it is: two sofas can then carry one id *)
+Theorem stale_explicit_id_repeats :
+  exists ts heap ops x y, let s := fst (run ts (init0 false heap) ops) in
+    nth_error (st_sheap (st s)) 0 = Some x /\ nth_error (st_sheap (st s)) 1 = Some y /\ s_xid x = s_xid y /\ s_num x = s_num y.
+Proof.
+  exists (mkTs [] []), [], [OCreateView 0 "v2" (Some 1) (Some 1)]. eexists. eexists. cbv zeta. vm_compute. repeat split.
 Qed.
 
 (* ================================================================ labels of structures created by the CAS *)
